@@ -259,7 +259,7 @@ def run_matches(body, what):
     for m in re.finditer(r"\bmatch\s+run_number\s*\{", body):
         o = m.end() - 1
         c = matching_brace(body, o)
-        arms = split_arms(body[o + 1:c], what)
+        arms = split_arms(ex.resolve_consts(body[o + 1:c]), what)
         if not arms:
             raise ExtractError(f"{what}: empty match")
         res.append(arms)
@@ -536,7 +536,7 @@ def gen_maps():
 
     # ---- INV_PADS_0 construction
     inv, _, _ = block_after(pm, r"\bstatic\s+ref\s+INV_PADS_0\s*:[^=]*=\s*\{", "INV_PADS_0")
-    m = re.search(r"for\s+after\s+in\s+(\d+)\s*\.\.=\s*(\d+)\s*u8\s*\{", inv)
+    m = re.search(r"for\s+after\s+in\s+(\d+)\s*\.\.=\s*(\d+)\s*(?:u8)?\s*\{", inv)
     if not m or int(m.group(1)) != 0:
         raise ExtractError("INV_PADS_0: `for after in 0..=N u8` not found")
     after_max = int(m.group(2))
@@ -544,7 +544,7 @@ def gen_maps():
     if not m:
         raise ExtractError("INV_PADS_0: `let offset = (after % A) * B;` not found")
     off_mod, off_mul = int(m.group(1)), int(m.group(2))
-    m = re.search(r"for\s+channel\s+in\s+(\d+)\s*\.\.=\s*(\d+)\s*u8\s*\{", inv)
+    m = re.search(r"for\s+channel\s+in\s+(\d+)\s*\.\.=\s*(\d+)\s*(?:u8)?\s*\{", inv)
     if not m:
         raise ExtractError("INV_PADS_0: `for channel in A..=B u8` not found")
     ch_lo, ch_hi = int(m.group(1)), int(m.group(2))
